@@ -1946,3 +1946,96 @@ func c06r13(rc *core.RC) {
 	free := mentionsLenBuf(growIf.Cond)
 	rc.Check(free, key+"/grows-when-full", growIf.Pos(), "the window is regrown when it has no free space left (the condition compares len(s.buf) with the data length), not only after a read that filled it: in-place growth can fill it too, and read would index position -1 of an empty rest")
 }
+
+// ---- C06.R14 the buffer base64 decodes into is as long as the decoded length ----
+
+// base64.Encoding.Decode writes DecodedLen(len(src)) bytes into dst and indexes dst up to that length: dst has to be
+// at least that long (length, not capacity). Every destination handed to Decode in the decoder package is therefore,
+// on every path, a make of exactly the variable that holds DecodedLen(len(src)), or a re-slice up to it. A reused
+// destination slice that was only tested for capacity panics with index out of range on a well-formed document.
+func c06r14(rc *core.RC) {
+	p := rc.P
+	n := 0
+	for _, fd := range p.Funcs("decoder") {
+		if fd.Body == nil {
+			continue
+		}
+		info := p.Info(fd)
+		fn := p.FuncName(fd)
+		k := 0
+		ast.Inspect(fd.Body, func(m ast.Node) bool {
+			call, ok := m.(*ast.CallExpr)
+			if !ok || core.CalleeName(info, call) != "encoding/base64.Encoding.Decode" && core.CalleeName(info, call) != "base64.Encoding.Decode" || len(call.Args) != 2 {
+				return true
+			}
+			k++
+			n++
+			rc.Touch(fn)
+			key := fmt.Sprintf("%s/base64-destination#%d long-enough", fn, k)
+			dst := core.ObjOf(info, call.Args[0])
+			if dst == nil {
+				rc.Unknown(key, call.Pos(), "the destination %s is not a variable", core.Src(p.Fset, call.Args[0]))
+				return true
+			}
+			// the variable that holds DecodedLen(len(src))
+			var lenObj types.Object
+			ast.Inspect(fd.Body, func(x ast.Node) bool {
+				as, isAs := x.(*ast.AssignStmt)
+				if !isAs || len(as.Lhs) != 1 || len(as.Rhs) != 1 {
+					return true
+				}
+				if c, isCall := core.Unparen(as.Rhs[0]).(*ast.CallExpr); isCall && strings.HasSuffix(core.CalleeName(info, c), "Encoding.DecodedLen") {
+					lenObj = core.ObjOf(info, as.Lhs[0])
+				}
+				return true
+			})
+			// every definition of dst
+			var bad []string
+			defs := 0
+			ast.Inspect(fd.Body, func(x ast.Node) bool {
+				as, isAs := x.(*ast.AssignStmt)
+				if !isAs || len(as.Lhs) != len(as.Rhs) || as.Pos() > call.Pos() {
+					return true
+				}
+				for i, l := range as.Lhs {
+					if core.ObjOf(info, l) != dst {
+						continue
+					}
+					defs++
+					r := core.Unparen(as.Rhs[i])
+					good := false
+					switch v := r.(type) {
+					case *ast.CallExpr:
+						if core.IsBuiltin(info, v, "make") && len(v.Args) >= 2 {
+							if o := core.ObjOf(info, v.Args[1]); o != nil && o == lenObj {
+								good = true
+							} else if c, isCall := core.Unparen(v.Args[1]).(*ast.CallExpr); isCall && strings.HasSuffix(core.CalleeName(info, c), "Encoding.DecodedLen") {
+								good = true
+							}
+						}
+					case *ast.SliceExpr:
+						if v.High != nil && core.ObjOf(info, v.High) == lenObj && lenObj != nil {
+							good = true // x[:decodedLen]: the bounds check is the slice expression's own (capacity)
+						}
+					}
+					if !good {
+						bad = append(bad, core.Src(p.Fset, r))
+					}
+				}
+				return true
+			})
+			switch {
+			case defs == 0:
+				rc.Unknown(key, call.Pos(), "no definition of the destination %s found", dst.Name())
+			case len(bad) > 0:
+				rc.Bad(key, call.Pos(), "the destination of base64 Decode can be %s, whose length is not known to reach the decoded length: Decode indexes it up to DecodedLen(len(src)) (a reused slice with enough capacity but a shorter length: index out of range)", strings.Join(bad, " or "))
+			default:
+				rc.OK(key, call.Pos(), "the destination is made with (or re-sliced to) the decoded length on every path")
+			}
+			return true
+		})
+	}
+	if n < 2 {
+		rc.Unknown("decoder/base64-destinations", token.NoPos, "found %d calls of base64 Decode in the decoder package (confirmed: 2)", n)
+	}
+}
